@@ -363,6 +363,8 @@ class SInt:
 
     # comparisons
     def _cmp(self, o: Any, op: str) -> Any:
+        if _is_tensor(o):
+            return NotImplemented
         b = SInt._lift(o)
         if b is None:
             return getattr(self.real(), op)(o)
@@ -555,6 +557,13 @@ class SReal:
             return b
         if b.const == 1:
             return self
+        ta, tb = _exp_arg(self.z), _exp_arg(b.z)
+        if ta is not None and tb is not None:
+            # exp(s) * exp(t) = exp(s + t): one exponential per product of powers (canonical form); the identity itself is handed to the
+            # solver, for which Exp is uninterpreted
+            r = sym_exp(SReal(ta + tb))
+            ctx().defs.append(r.z == self.z * b.z)
+            return r
         return SReal(self.z * b.z)
 
     __rmul__ = __mul__
@@ -580,6 +589,17 @@ class SReal:
             if b.const == 1:
                 return self
             return SReal(self.z / b.z)
+        tb = _exp_arg(b.z)
+        if tb is not None:  # x / exp(t) = x * exp(-t); exp never vanishes
+            ta = _exp_arg(self.z)
+            if ta is not None:
+                r = sym_exp(SReal(ta - tb))
+                ctx().defs.append(r.z * b.z == self.z)
+                return r
+            if self.const == 1:
+                r = sym_exp(SReal(-tb))
+                ctx().defs.append(r.z * b.z == 1)
+                return r
         ctx().oblige(f"definedness: divisor {z3.simplify(b.z)} != 0", b.z != 0, kind="definedness")
         return SReal(self.z / b.z)
 
@@ -592,9 +612,16 @@ class SReal:
     def __rpow__(self, b: Any) -> Any:
         if self.const is not None:
             return sym_pow(_sreal(b), self.const)
-        raise NotImplementedError("symbolic exponent")
+        # base ** (symbolic exponent) = exp(exponent * log(base)); base > 0 is a definedness obligation for a symbolic base
+        if isinstance(b, (int, float, Fraction)) and not isinstance(b, bool):
+            if b <= 0:
+                raise NotImplementedError("non-positive base with a symbolic exponent")
+            return sym_exp(self * math.log(b)) if b != 1 else SReal(_q(1), Fraction(1))
+        return sym_exp(self * sym_log(b))
 
     def _cmp(self, o: Any, op: str) -> Any:
+        if _is_tensor(o):
+            return NotImplemented  # python then asks the tensor's reflected operator (element-wise comparison)
         b = _sreal(o)
         return SBool(getattr(self.z, op)(b.z))
 
@@ -629,7 +656,17 @@ def sym_pow(base: Any, p: Any) -> Any:
     """base ** p for a concrete rational p; replaces float.__pow__/math.pow on symbolic values."""
     if not isinstance(base, (SReal, SInt)) and not isinstance(p, (SReal, SInt)):
         return math.pow(base, p)
+    if (isinstance(p, SReal) and p.const is None) or (isinstance(p, SInt) and p.concrete() is None):
+        return _sreal(p).__rpow__(base)  # symbolic exponent: exp(p * log(base))
     f = snap_exponent(p)
+    if isinstance(base, SReal) and _exp_arg(base.z) is not None:
+        # exp(t) ** (n/d) = exp(n t / d), with the defining identity r^d = exp(t)^n for the solver
+        r = sym_exp(SReal(_exp_arg(base.z) * z3.Q(f.numerator, f.denominator)))
+        n_, d_ = abs(f.numerator), f.denominator
+        lhs = z3.Product([r.z] * d_) if d_ > 1 else r.z
+        rhs = (z3.Product([base.z] * n_) if n_ > 1 else base.z) if n_ > 0 else z3.RealVal(1)
+        ctx().defs.append(lhs == rhs if f > 0 else lhs * rhs == 1)
+        return r
     if isinstance(base, SInt) and f.denominator == 1 and f >= 0:
         return base ** int(f)
     b = _sreal(base)
@@ -670,6 +707,16 @@ def sym_log(x: Any) -> Any:
         L = LOG(b.z)
         c.defs += [EXP(L) == b.z, z3.Implies(b.z > 1, L > 0), z3.Implies(b.z == 1, L == 0), z3.Implies(b.z < 1, L < 0)]
     return SReal(LOG(b.z))
+
+
+def _exp_arg(z: Any) -> Any:
+    """t when z is syntactically Exp(t)"""
+    try:
+        if z3.is_app(z) and z.decl().eq(EXP):
+            return z.arg(0)
+    except Exception:
+        pass
+    return None
 
 
 def sym_exp(x: Any) -> Any:
